@@ -7,9 +7,9 @@
    run with a per-case watchdog (see DESIGN.md), whose agreement with this model on every step is what transfers the
    invariant below to the implementation's states. *)
 From Coq Require Import NArith List Bool Lia.
-From MT Require Import Lib Types Tables Screen Parser Utf8 World Spec Stmt.
+From MT Require Import Lib Types Tables Screen Parser Utf8 World Safe Spec Stmt.
 From MT.Gen Require GenTables.
-From MT.Proofs Require Import WF Aeq P05 CongrMore SpecAll RefineModes RefineAll RunAll Stream Recog P01 P01Tables.
+From MT.Proofs Require Import WF Aeq P05 CongrMore SpecAll RefineModes RefineAll RunAll Stream Recog P01 P01Tables PSafe.
 Import ListNotations.
 Open Scope N_scope.
 
@@ -54,6 +54,45 @@ Theorem C01_sums_fit_in_u32 : forall s n, WF s -> columns s + 10000 <= 429496729
   cx s + n < 4294967296 /\ cy s + n < 4294967296 /\ cx s + 1 < 4294967296 /\ cy s + 1 < 4294967296.
 Proof. intros s n W Hc Hl Hn. pose proof (wf_x s W). pose proof (wf_y s W). repeat split; Lia.lia. Qed.
 
+
+(* ---- the arithmetic half as theorems: Safe.v lists, function by function, the condition under which no *checked* u32 / i32
+   operation of src/screen.rs fails on the executed path ([step_ok s o], [init_ok c l]; `wrun_ok` is the same along a history
+   through decoder and recogniser). These hold for every history that C01 quantifies over, for geometries up to
+   BND = 2^31 - 10000: Screen::new and every operation performed are free of overflow, underflow and `as i32 - 1` panics.
+   wid is the display-width oracle (unicode-width returns 0, 1 or 2 — the only assumption about it). *)
+Theorem C01_no_checked_operation_fails : forall wid is_comb nfc, (forall c, wid c <= 2) -> forall cols lns (os : list wop),
+  1 <= cols <= BND -> 1 <= lns <= BND -> Forall wop_small os ->
+  init_ok cols lns = true /\ wrun_ok wid is_comb nfc (winit cols lns) os = true.
+Proof. exact world_safe. Qed.
+Theorem C01_api_no_checked_operation_fails : forall wid is_comb nfc, (forall c, wid c <= 2) -> forall c l (os : list op),
+  1 <= c <= BND -> 1 <= l <= BND -> Forall op_small os ->
+  init_ok c l = true /\ all_ok wid is_comb nfc (init c l) os = true.
+Proof. exact api_safe. Qed.
+(* one step, from any well-formed state (not only reachable ones) *)
+Theorem C01_every_operation_safe : forall wid is_comb nfc, (forall c, wid c <= 2) -> forall s o,
+  WF s -> SCm s -> Bn s -> op_small o -> step_ok wid is_comb nfc s o = true.
+Proof. exact step_safe. Qed.
+(* the bound that makes the above possible is itself kept by every operation *)
+Theorem C01_geometry_bound_is_invariant : forall wid is_comb nfc s o, WF s -> Bn s -> op_small o -> Bn (step wid is_comb nfc s o).
+Proof. exact Bn_step. Qed.
+(* the recogniser only delivers operations with small arguments, from any state it can be in *)
+Theorem C01_recogniser_delivers_small_arguments : forall u st c, pst_small st ->
+  pst_small (fst (pstep u st c)) /\ Forall op_small (snd (pstep u st c)).
+Proof. exact pstep_small. Qed.
+(* non-vacuity: the premises are met by a concrete state, and the conditions are not trivially true — outside the contract they fail
+   exactly where the Rust text panics (checked against the real crate on every run, see DESIGN.md) *)
+Example C01_premises_hold_somewhere : WF (init 80 24) /\ SCm (init 80 24) /\ Bn (init 80 24).
+Proof.
+  assert (H1 : 1 <= 80 <= BND) by (unfold BND; Lia.lia). assert (H2 : 1 <= 24 <= BND) by (unfold BND; Lia.lia).
+  destruct (SInv_init 80 24 H1 H2) as [a b c]. split; [exact a|split; [exact b|exact c]].
+Qed.
+Example C01_conditions_fail_outside_the_contract :
+  step_ok (fun _ => 1) (fun _ => false) (fun x => x) (init 80 24) (OCup (Some 2147483648) None) = false /\
+  step_ok (fun _ => 1) (fun _ => false) (fun x => x) (step (fun _ => 1) (fun _ => false) (fun x => x) (init 80 24) (OCha (Some 5))) (OCuf (Some 4294967295)) = false /\
+  step_ok (fun _ => 1) (fun _ => false) (fun x => x) (init 80 24) (OResize (Some 0) None) = false /\
+  init_ok 0 24 = false /\ init_ok 80 0 = false.
+Proof. vm_compute. repeat split. Qed.
+
 Print Assumptions C01_pipeline_invariant.
 Print Assumptions C01_api_invariant.
 Print Assumptions C01_recogniser_delivers_legal_operations.
@@ -62,3 +101,10 @@ Print Assumptions C01_no_sink_state.
 Print Assumptions C01_chunking_irrelevant.
 Print Assumptions C01_index_tables_of_the_source.
 Print Assumptions C01_sums_fit_in_u32.
+Print Assumptions C01_no_checked_operation_fails.
+Print Assumptions C01_api_no_checked_operation_fails.
+Print Assumptions C01_every_operation_safe.
+Print Assumptions C01_geometry_bound_is_invariant.
+Print Assumptions C01_recogniser_delivers_small_arguments.
+Print Assumptions C01_premises_hold_somewhere.
+Print Assumptions C01_conditions_fail_outside_the_contract.
